@@ -40,6 +40,8 @@ ASSUMPTIONS = [
     'parameters only on int/float/scaled parameters',
     'check_<p> hooks and driver functions are user code: hooks are arbitrary functions of (value, cache) in the theorems and the '
     'three generated shapes in the correspondence; the driver follows a per-request script; neither touches the module otherwise',
+    'a stored value whose nested struct lacks an optional member fails to export (finding nested-optional-struct-stored-then-error); '
+    'the model reproduces it, the theorems carry the exception',
     'exported names are unique within the module (accessiblename2attr is a dict; the model takes the first match)',
 ]
 
@@ -794,8 +796,39 @@ def f_do_without_accessible(case, obs, f):
     return r['act'] == 'do' and r['acc'] is None and st['reply'] == 'InternalError' and not st['drv']
 
 
+def spec_exportable(d, v):
+    """every struct inside the value carries all members of its type (what export_value demands)"""
+    t = d['t']
+    if t == 'struct' and isinstance(v, dict):
+        m = dict(d['members'])
+        return all(n in v for n in m) and all(k in m and spec_exportable(m[k], x) for k, x in v.items())
+    if t == 'array' and isinstance(v, (list, tuple)):
+        return all(spec_exportable(d['elem'], x) for x in v)
+    if t == 'tuple' and isinstance(v, (list, tuple)):
+        return all(spec_exportable(dd, x) for dd, x in zip(d['elems'], v))
+    return True
+
+
+def f_unexportable_stored(case, obs, f):
+    """change answered WrongType although the value was stored: the stored value holds a nested struct that lacks an
+    optional member"""
+    if f['class'] not in ('failed-write-changed-cache', 'refusal-not-clean', 'valid-request-refused') or 'req' not in f:
+        return False
+    md = case['mod']
+    r, st = case['reqs'][f['req']], obs['steps'][f['req']]
+    if r['act'] != 'change' or st['reply'] != 'WrongType' or r['mod'] != md['name']:
+        return False
+    ename = r['acc'] if r['acc'] is not None else 'target'
+    for n, e, d, *_ in all_params(md):
+        if e == ename:
+            after = dict((k, t) for k, t in st['cache'])[n]
+            return not spec_exportable(d, _rebuild(d, after))
+    return False
+
+
 FINDING_CLASSIFIERS = {
     'do-specifier-without-colon': f_do_without_accessible,
+    'nested-optional-struct-stored-then-error': f_unexportable_stored,
 }
 
 
@@ -884,6 +917,13 @@ def fix_type(d, top=True):
     return d
 
 
+_I5 = {'t': 'int', 'min': 0, 'max': 5}
+NESTED_OPTIONAL_TYPES = [
+    {'t': 'array', 'elem': {'t': 'struct', 'members': [['p', _I5], ['q', _I5]], 'optional': ['q'], 'client': False}, 'min': 0, 'max': 3},
+    {'t': 'struct', 'members': [['s', {'t': 'struct', 'members': [['x', _I5]], 'optional': ['x'], 'client': False}], ['n', _I5]],
+     'optional': [], 'client': False},
+    {'t': 'tuple', 'elems': [_I5, {'t': 'struct', 'members': [['x', _I5], ['y', {'t': 'bool'}]], 'optional': ['x', 'y'], 'client': False}]},
+]
 NUMERIC_TYPES = [
     {'t': 'int', 'min': 0, 'max': 10}, {'t': 'int', 'min': -5, 'max': 5}, {'t': 'int', 'min': 0, 'max': 100},
     {'t': 'float', 'min': G.enc_float(0.0), 'max': G.enc_float(10.0)},
@@ -965,6 +1005,8 @@ def rand_module(rng, depth):
     for idx, n in enumerate(names):
         if limits_module and idx < 2:
             d = rng.choice(NUMERIC_TYPES)
+        elif rng.random() < 0.05:
+            d = rng.choice(NESTED_OPTIONAL_TYPES)
         else:
             d = fix_type(G.rand_type(rng, rng.randint(0, depth)))
         exp = rand_export(rng)
@@ -1160,7 +1202,7 @@ def exhaustive_cases():
 
 def gen_cases(seed, tier):
     rng = random.Random(seed * 104729 + 4)
-    n = {'quick': 3000, 'thorough': 60000, 'search': 30000}[tier]
+    n = {'quick': 2000, 'thorough': 30000, 'search': 20000}[tier]
     depth = 1 if tier == 'quick' else 2
     cases = [rand_case(rng, depth) for _ in range(n)]
     ex = list(exhaustive_cases())
